@@ -126,6 +126,26 @@ func init() {
 		memdbPkg + ".WatchSet.Add", memdbPkg + ".WatchSet.AddWithLimit", memdbPkg + ".Txn.TrackChanges"} {
 		models[n] = nop
 	}
+	// memdb.Change: Created/Updated/Deleted are the documented nil tests on Before and After
+	for _, m := range []string{"Created", "Updated", "Deleted"} {
+		m := m
+		models[memdbPkg+".Change."+m] = func(f *Frame, st *State, e *ast.CallExpr, recv *Term, args []*Term, sig *types.Signature) []*Term {
+			el := f.typeOf(e.Fun.(*ast.SelectorExpr).X)
+			if p, ok := types.Unalias(el).(*types.Pointer); ok {
+				el = p.Elem()
+			}
+			before := f.load(st, f.fieldLoc(recv, el, 1))
+			after := f.load(st, f.fieldLoc(recv, el, 2))
+			bn, an := Eq(before, IfaceNil), Eq(after, IfaceNil)
+			switch m {
+			case "Created":
+				return []*Term{And(bn, Not(an))}
+			case "Updated":
+				return []*Term{And(Not(bn), Not(an))}
+			}
+			return []*Term{And(Not(bn), an)}
+		}
+	}
 	// memdb transaction operations, on every receiver type through which the state package reaches them
 	for _, recv := range []string{statePkg + ".ReadTxn", statePkg + ".WriteTxn", statePkg + ".AbortTxn", statePkg + ".txn", memdbPkg + ".Txn"} {
 		models[recv+".First"] = modelFirst
